@@ -506,7 +506,11 @@ func c20Observe(w *mon.W, x interface{}, expected int, class string) {
 			if avg {
 				out = size.Stat(x, depth, 3, size.Opt{AvgOf: 4})
 			} else {
-				out = size.Stat(x, depth, 3)
+				if depth == 1 {
+					out = size.Stat(x, depth, 3, []interface{}{}...) // "no option" as an empty non-nil variadic slice
+				} else {
+					out = size.Stat(x, depth, 3)
+				}
 			}
 		}()
 		w.Eval(1)
